@@ -268,6 +268,7 @@ static inline void *ledger_alloc(size_t bytes) {
   return p;
 }
 static inline void ledger_free(void *p, size_t bytes) {
+  if (p == nullptr && bytes == 0) return;   // deallocate(nullptr, 0): nothing is handed back (harmless, as free(NULL))
   ++g_dealloc_calls;
   int k = blk_find(p);
   if (k < 0) {
